@@ -9,6 +9,8 @@ import (
 	"strings"
 	"time"
 
+	"github.com/ipld/go-storethehash/store"
+
 	"verif/harness/internal/conc"
 	"verif/harness/internal/core"
 	"verif/harness/internal/gen"
@@ -75,6 +77,11 @@ func genConcCase(c run.Ctx, prop string, withGC bool) concCase {
 	default:
 		pl.Flusher, pl.SyncInterval, pl.FlushLoop = true, time.Millisecond, true
 	}
+	if c.Index%4 == 1 {
+		// fsync inside every commit (non-default): the Sync calls of index, primary and freelist take
+		// part in the locking of the flush path
+		pl.Extra = append(pl.Extra, store.SyncOnFlush(true))
+	}
 	cc := concCase{pl: pl, classA: classA}
 	if pl.Mode == "depth" {
 		cc.depth = depthHits(r)
@@ -114,7 +121,7 @@ func planSample(c run.Ctx, cc concCase) map[string]any {
 		progs = append(progs, strings.Join(ops, " "))
 	}
 	return map[string]any{"case": c.ID(), "config": pl.Cfg, "universe": pl.U.Desc, "class": map[bool]string{true: "A (single writer per key)", false: "B (several writers per key)"}[cc.classA],
-		"mode": pl.Mode, "gomaxprocs": pl.Procs, "flusher": pl.Flusher, "flush_loop": pl.FlushLoop, "gc_primary_loop": pl.GCPrimary, "gc_index_loop": pl.GCIndex, "gc_background": pl.GCBackground.String(), "cache_resize": pl.CacheResize, "programs": progs}
+		"sync_on_flush": len(pl.Extra) > 0, "mode": pl.Mode, "gomaxprocs": pl.Procs, "flusher": pl.Flusher, "flush_loop": pl.FlushLoop, "gc_primary_loop": pl.GCPrimary, "gc_index_loop": pl.GCIndex, "gc_background": pl.GCBackground.String(), "cache_resize": pl.CacheResize, "programs": progs}
 }
 
 // runConc executes a concurrent case and applies the C05/C06 oracle.
@@ -275,7 +282,7 @@ func init() {
 		},
 		CaseTimeout:      3 * time.Minute,
 		HangInconclusive: true,
-		Rule: "stress family: case = 4-10 client goroutines x 20-60 calls (Put/Get/Has/GetSize/Remove, unique values) over 3-10 keys concentrated in few buckets with shared stored prefixes, with the periodic flusher (1 ms) and/or an explicit flushing goroutine, GOMAXPROCS 2/4/16, perturbation mode free / noise (hash-determined Gosched and 20us-5ms sleeps at hook points) / depth-d (1-3 chosen hook hits delayed 5-20 ms); class A (even case index): one writer per key, any readers; class B (odd): several writers per key. Every call is recorded at the API boundary with one atomic logical clock; oracle: no error but key-exists, per-key linearizability (porcupine, reference map model) including reads after quiescence, fsck at quiescence. Gated family (case index mod 8 == 7): scripted windows G1-G6 of DESIGN appendix C. " +
+		Rule: "stress family: case = 4-10 client goroutines x 20-60 calls (Put/Get/Has/GetSize/Remove, unique values) over 3-10 keys concentrated in few buckets with shared stored prefixes, with the periodic flusher (1 ms) and/or an explicit flushing goroutine, GOMAXPROCS 2/4/16, SyncOnFlush(true) in a quarter of the cases, perturbation mode free / noise (hash-determined Gosched and 20us-5ms sleeps at hook points) / depth-d (1-3 chosen hook hits delayed 5-20 ms); class A (even case index): one writer per key, any readers; class B (odd): several writers per key. Every call is recorded at the API boundary with one atomic logical clock; oracle: no error but key-exists, per-key linearizability (porcupine, reference map model) including reads after quiescence, fsck at quiescence. Gated family (case index mod 8 == 7): scripted windows G1-G6 of DESIGN appendix C. " +
 			"non-trivial iff >=2 operations of different clients on keys of one bucket overlapped in the logical clock AND a flush with work completed during the run; distinct = distinct hash of the ordered (role, hook) event sequence (first 256 events) = distinct interleavings observed",
 		Assumptions: []string{
 			"schedules are sampled by stress, noise and gates, not enumerated",
